@@ -1121,7 +1121,30 @@ impl Zoned {
     /// ```
     #[inline]
     pub fn start_of_day(&self) -> Result<Zoned, Error> {
-        self.datetime().start_of_day().to_zoned(self.time_zone().clone())
+        let start = self.datetime().start_of_day();
+        let tz = self.time_zone();
+        // When midnight falls into a gap, the day begins at the transition
+        // that skips it. The compatible strategy below only finds that
+        // instant when the gap *begins* at midnight: otherwise it is later
+        // by the part of the gap that precedes midnight.
+        if let AmbiguousOffset::Gap { before, after } =
+            tz.to_ambiguous_timestamp(start).offset()
+        {
+            // `lo` precedes the transition and `hi` does not.
+            if let (Ok(lo), Ok(hi)) =
+                (after.to_timestamp(start), before.to_timestamp(start))
+            {
+                for t in tz.following(lo) {
+                    if t.timestamp() > hi {
+                        break;
+                    }
+                    if t.offset() != before {
+                        return Ok(t.timestamp().to_zoned(tz.clone()));
+                    }
+                }
+            }
+        }
+        start.to_zoned(tz.clone())
     }
 
     /// Returns the end of the day, corresponding to `23:59:59.999999999` civil
